@@ -30,7 +30,13 @@
               subscription entry on node management, addressed to that entry's client
               feature, describing the entity as added (with its features) or removed
               (without), and nothing to anyone else
-     FRESH    a feature id was handed out twice within one entity
+     FRESH    a feature id was handed out twice within one entity -- also among the calls of a
+              burst (overlapping NextFeatureId / NewFeatureLocal + AddFeature / GetOrAddFeature
+              calls on one entity object) and between them and everything handed out before.
+              A burst is judged as its calls one after the other in the order given, each
+              with its own observation (the runner reports the ids sorted: the calls overlap
+              each other, so which call obtained which id is not prescribed); the reads that
+              follow show the announced feature numbers unique and resolving
      SAME     GetOrAddFeature did not return the one feature of that type and role
               (it returned another one, or created a second one)
    The tree helpers (feats_add, fn_add, render_feat, the sorted subscription set) are
@@ -127,7 +133,8 @@ Definition expect (m : mst) (out : list obs) (o : obs) : mst * verdict :=
   | _ => (m, [CL_SHAPE])
   end.
 
-Definition mon (m : mst) (o : op) (out : list obs) : mst * verdict :=
+(* every operation but Burst *)
+Definition mon_base (m : mst) (o : op) (out : list obs) : mst * verdict :=
   match o with
   | NewEntity e ty =>
       match assoc_N (Npos e) (m_objs m) with
@@ -254,6 +261,30 @@ Definition mon (m : mst) (o : op) (out : list obs) : mst * verdict :=
                        m_thr := m_thr m; m_rds := remove_N t (m_rds m) |} in
           (m1, judge_reply (m_members m1) out (exp_reply_of m1 p l))
       end
+  | Burst _ _ => expect m out BadBurst
+  end.
+
+(* the calls of a burst, one observation each *)
+Fixpoint mon_calls (m : mst) (l : list op) (out : list obs) : mst * verdict :=
+  match l, out with
+  | [], [] => (m, [])
+  | o :: r, x :: out' =>
+      let '(m1, v) := mon_base m o [x] in
+      let '(m2, v2) := mon_calls m1 r out' in
+      (m2, v ++ v2)
+  | _, _ => (m, [CL_SHAPE])
+  end.
+
+Definition mon (m : mst) (o : op) (out : list obs) : mst * verdict :=
+  match o with
+  | Burst e calls =>
+      if burst_wf calls
+      then match assoc_N e (m_objs m) with
+           | None => expect m out NoEntity
+           | Some _ => mon_calls m (map (bcall_op e) calls) out
+           end
+      else expect m out BadBurst
+  | _ => mon_base m o out
   end.
 
 (* nothing is excused: no recorded finding for C07 *)
